@@ -100,6 +100,21 @@ func (c *Ctx) lowered(v ssa.Value, d int) bool {
 			return c.allStoresLowered(loc, d)
 		}
 	case *ssa.Extract:
+		// one result of a helper with several results (`name, options := parseValueField(sf)`): every return lowers it
+		if cl, ok := x.Tuple.(*ssa.Call); ok {
+			if cal := cl.Common().StaticCallee(); cal != nil && c.P.InTarget(cal) && len(cal.Blocks) > 0 {
+				n := 0
+				for _, r := range core.Returns(cal) {
+					for _, rv := range core.ReturnOperand(r, x.Index) {
+						n++
+						if !c.lowered(rv, d+2) {
+							return false
+						}
+					}
+				}
+				return n > 0
+			}
+		}
 		// range key over a map whose keys are lowered by induction (the builder's own named maps, namedValues)
 		if n, ok := x.Tuple.(*ssa.Next); ok && x.Index == 1 {
 			if r, ok := n.Iter.(*ssa.Range); ok {
@@ -1876,6 +1891,12 @@ func (c *Ctx) runStructWalk(walker *ssa.Function) {
 						}
 						for _, rv := range core.Sources(r.Results[x.Index]) {
 							if s, ok := core.ConstString(rv); ok && s == "" {
+								nameSrc["empty"] = nameSrc["empty"] || len(core.Returns(h)) == 1 // the helper itself empties the name
+								continue
+							}
+							// the helper computes the whole name (lower-casing included): read its result like an inline expression
+							if cl, isC := rv.(*ssa.Call); isC && core.CalleeName(cl.Common()) == "strings.ToLower" {
+								nameWalk(rv, d+1)
 								continue
 							}
 							// the helper reads the name off the struct field it was handed
@@ -1927,7 +1948,16 @@ func (c *Ctx) runStructWalk(walker *ssa.Function) {
 		"the recorded name comes from the tag's first part, else the field name, or is empty (type-only)", fmt.Sprintf("%v", nameSrc))
 	// emptied exactly under the typeOnly option
 	emptyOK := false
-	if ph, ok := fieldStores["Name"].(*ssa.Phi); ok {
+	nameV := fieldStores["Name"]
+	// the name computed by a helper with one return: judge that return's operand
+	if e, isE := nameV.(*ssa.Extract); isE {
+		if hc, isC := e.Tuple.(*ssa.Call); isC {
+			if h := hc.Common().StaticCallee(); h != nil && c.P.InTarget(h) && len(core.Returns(h)) == 1 && e.Index < len(core.Returns(h)[0].Results) {
+				nameV = core.Returns(h)[0].Results[e.Index]
+			}
+		}
+	}
+	if ph, ok := nameV.(*ssa.Phi); ok {
 		for i, e := range ph.Edges {
 			if s, isS := core.ConstString(e); isS && s == "" {
 				pred := ph.Block().Preds[i]
